@@ -25,7 +25,8 @@ func chunks(g *docGen, total int) string {
 			n = total
 		}
 		// a paragraph of n words; now and then one word is followed directly by an inline element (1<sup>st</sup>):
-		// two text nodes, two words for the word counter, two words in the text view
+		// two text nodes but one word for every reader - and two words for the word counter, which is the recorded
+		// finding C09_WordCountMatchesText / word-continues-across-inline-elements
 		if n >= 10 && g.rng.Intn(3) == 0 {
 			tag := pickS(g.rng, "sup", "sub", "b", "span")
 			sb.WriteString("<p>" + g.words(n/2) + "<" + tag + ">" + g.words(1) + "</" + tag + "> " + g.words(n-n/2-1) + "</p>")
